@@ -30,6 +30,10 @@ HOSTILE_IDS = [
     "．．/outside", "..／outside", "‥/outside", ".", "", " ", "cfgA/", "./cfgA", "cfgA\x00", "\x00", "nonexistent", "root2", "_hidden", ".dot", "file.txt", "cfgA" + "a" * 300, "CFGA", "cfgA ", "~", "$HOME",
     "cfgA;cfgB", "cfgA-cfgB", "*", "cfg?",
 ]
+# ids that need the location of the scratch tree: @R@ = the root's absolute path, @B@ = its parent.  `@R@2/...` is the
+# sibling decoy whose absolute path has the root's path as a *string* prefix.
+HOSTILE_ABS_IDS = ["@R@2/cfgX", "@R@2", "@B@/outside", "@R@/../outside", "@R@/../root2/cfgX", "@R@/cfgA", "@R@", "@R@/", "@R@2/../root2/cfgX", "@R@/cfgA/../../root2/cfgX", "@B@/root/cfgB", "/@R@2/cfgX",
+                   "cfgA/../cfgB", "./cfgB", "cfgB/.", "_hidden/../cfgA"]
 THREADS = ["thread-aaaaaaaaaaaa-1", "thread-aaaaaaaaaaaa-2", "thread-bbbbbbbbbbbbbbbb"]
 
 
@@ -130,9 +134,9 @@ class C20(Prop):
             if kind == "valid":
                 r["config_id"] = d.choice(VALID_IDS, "vid", i)
             elif kind == "hostile":
-                r["config_id"] = d.choice(HOSTILE_IDS, "hid", i)
+                r["config_id"] = d.choice(HOSTILE_ABS_IDS, "haid", i) if d.chance(0.3, "habs", i) else d.choice(HOSTILE_IDS, "hid", i)
             elif kind == "multi":
-                r["config_ids"] = [d.choice(VALID_IDS + HOSTILE_IDS[:12], "mid", i, j) for j in range(2)]
+                r["config_ids"] = [d.choice(VALID_IDS + HOSTILE_IDS[:12] + HOSTILE_ABS_IDS[:6], "mid", i, j) for j in range(2)]
             if d.chance(0.6, "thr", i):
                 r["thread_id"] = d.choice(THREADS, "tid", i)
             if d.chance(0.25, "ctx", i):
@@ -187,13 +191,18 @@ class C20(Prop):
             api.RailsConfig.from_path = staticmethod(from_path)
             results = {}
 
+            def expand(x):
+                if isinstance(x, list):
+                    return [expand(y) for y in x]
+                return x.replace("@R@", root).replace("@B@", base) if isinstance(x, str) else x
+
             async def one(i, r):
                 tok = llm_peer.conv_var.set("r%d" % i)
                 try:
                     body = {"messages": [{"role": "user", "content": r["text"]}]}
                     for k in ("config_id", "config_ids", "thread_id", "context"):
                         if k in r:
-                            body[k] = copy.deepcopy(r[k])
+                            body[k] = expand(copy.deepcopy(r[k])) if k.startswith("config") else copy.deepcopy(r[k])
                     try:
                         rb = api.RequestBody(**body)
                     except control.SimControl:
@@ -248,6 +257,11 @@ class C20(Prop):
             seams.uninstall()
             rootreal = os.path.realpath(os.path.join(base, "root"))
             path_reals = [(p, _safe_realpath(p)) for p in world.paths]
+            id_class = {}
+            for r in sc["requests"]:
+                for cid in (r.get("config_ids") or []) + ([r["config_id"]] if "config_id" in r else []) + ([sc["default_config_id"]] if sc.get("default_config_id") else []):
+                    id_class[cid] = _classify(rootreal, cid.replace("@R@", rootreal).replace("@B@", os.path.dirname(rootreal)))
+            rootdir = os.path.join(base, "root")
             shutil.rmtree(base, ignore_errors=True)
 
         # ---- oracle (a): confinement ---------------------------------------------------------------
@@ -261,7 +275,7 @@ class C20(Prop):
         for i, r in enumerate(sc["requests"]):
             st = results.get(i)
             ids = r.get("config_ids") or ([r["config_id"]] if "config_id" in r else None)
-            tr.log("req", i, r.get("config_id"), r.get("config_ids"), r.get("thread_id"), st[0] if st else None, _content(st))
+            tr.log("req", i, r.get("config_id"), r.get("config_ids"), r.get("thread_id"), st[0] if st else None, _content(st).replace(base, "@B@") if isinstance(_content(st), str) else _content(st))
             if st is None:
                 out.violate("request-lost", "no-result", "request %d never completed" % i)
                 continue
@@ -274,7 +288,6 @@ class C20(Prop):
             # RequestBody turns config_id "" into "no id"; config_ids [""] reaches the loader as the root itself
             given = [c for c in (ids or []) if not (c == "" and "config_id" in r)]
             eff_ids = given if given else ([sc["default_config_id"]] if sc.get("default_config_id") else None)
-            loadable = eff_ids is not None and all(_inside_and_config(cid) for cid in eff_ids)
             if eff_ids is None and not ids and st[0] == "raised" and type(st[1]).__name__ == "GuardrailsConfigurationError":
                 out.probe("no_id_no_default_rejected")  # documented behaviour: nothing to load, explicit configuration error
                 continue
@@ -285,12 +298,28 @@ class C20(Prop):
                 out.violate("route-raised", "%s:%s" % (type(e).__name__, _id_class(ids[0]) if ids else "no-id"), "request %d (config ids %r) made the route raise %s: %s instead of returning a reply" % (i, ids, type(e).__name__, str(e)[:200]))
                 continue
             content = _content(st)
-            if not loadable:
-                if eff_ids is not None and content != FIXED_TMPL % (eff_ids,):
-                    out.violate("not-fixed-reply", _id_class(eff_ids[0]), "request %d with config ids %r: reply %r, expected the fixed 'could not load' reply" % (i, eff_ids, content))
+            # what the property demands per id: an id that does not resolve (realpath of root/id, as the server joins it) to a
+            # directory inside the root MUST get the fixed reply; the plain names of the valid configurations MUST be served;
+            # any other spelling that resolves inside the root (./cfgA, cfgA/, <root>/cfgA, ".", "_hidden") MAY be served or
+            # refused - the property only forbids loading from outside
+            classes = [id_class.get(cid, "must-fixed") for cid in eff_ids] if eff_ids is not None else []
+            eff_exp = [cid.replace("@R@", rootdir).replace("@B@", base) for cid in eff_ids] if eff_ids is not None else None
+            is_fixed = eff_ids is not None and content == FIXED_TMPL % (eff_exp,)
+            if eff_ids is None or "must-fixed" in classes:
+                if eff_ids is not None and not is_fixed:
+                    out.violate("not-fixed-reply", _id_class(eff_ids[classes.index("must-fixed")]), "request %d with config ids %r: reply %r, expected the fixed 'could not load' reply (the id does not name a directory inside the root)" % (i, eff_ids, content))
+                    # the request was served: the thread bookkeeping below follows what really happened
                 else:
                     out.probe("hostile_id_rejected")
+                    continue
+            if is_fixed:
+                if all(c == "must-load" for c in classes):
+                    out.violate("valid-config-refused", "plain-name", "request %d with config ids %r (configurations inside the root, plain names) got the fixed 'could not load' reply" % (i, eff_ids))
+                else:
+                    out.probe("alternative_spelling_refused")
                 continue
+            if any(c == "may-load" for c in classes):
+                out.probe("alternative_spelling_served")
             out.probe("valid_id_loaded")
             # ---- oracle (b): threads ---------------------------------------------------------------
             new_msgs = ([{"role": "context", "content": r["context"]}] if "context" in r else []) + [{"role": "user", "content": r["text"]}]
@@ -357,6 +386,17 @@ def _last_tok(prompt):
     return m[-1] if m else None
 
 
+def _classify(rootreal, cid):
+    """must-fixed / must-load / may-load for one (expanded) config id; see the oracle."""
+    if "\x00" in cid:
+        return "must-fixed"
+    real = _safe_realpath(os.path.join(rootreal, cid))
+    inside = real == rootreal or real.startswith(rootreal + os.sep)
+    if not inside or not os.path.isdir(real):
+        return "must-fixed"
+    return "must-load" if cid in VALID_IDS else "may-load"
+
+
 def _inside_and_config(cid):
     """A config id the server is expected to be able to load: a valid config directory of the tree."""
     return cid in VALID_IDS or cid in ("_hidden", ".dot", ".", "")
@@ -369,6 +409,10 @@ def _id_class(cid):
         return "empty"
     if cid in VALID_IDS:
         return "valid"
+    if cid.startswith(("@R@2", "/@R@2")):
+        return "absolute-sibling-sharing-root-prefix"
+    if cid.startswith(("@R@", "@B@")):
+        return "absolute-dotdot" if ".." in cid else "absolute"
     if ".." in cid:
         return "dotdot"
     if "/" in cid or "\\" in cid:
